@@ -144,9 +144,38 @@ def install_gic(world):
     ))
 
 
+GTCN = "robotools.liquidhandling.composition.get_trough_component_names"
+
+
+def gtcn_scen(columns, names, nvols=None):
+    """names: list of 'str' | None (its length may differ from columns: rejected)"""
+    def make(ex):
+        from pyvc.values import SeqV
+
+        vols = [sreal(f"iv_{c}") for c in range(columns if nvols is None else nvols)]
+        for v in vols:
+            ex.p.assume(v.t >= 0)
+        return {"name": sstr("name"), "columns": columns, "column_names": SeqV.of("list", [None if k is None else sstr(f"given_{i}") for i, k in enumerate(names)]),
+                "initial_volumes": SeqV.of("list", vols)}
+    return Scenario(f"{columns} column(s), column_names={names}" + ("" if nvols is None else f", {nvols} volume(s)"), make)
+
+
+def install_gtcn(world):
+    register(world, Contract(
+        func=GTCN, serves=["C05", "C20"],
+        scenarios=[gtcn_scen(1, [None]), gtcn_scen(1, ["str"]), gtcn_scen(2, [None, None]), gtcn_scen(2, ["str", None]), gtcn_scen(2, ["str", "str"]),
+                   gtcn_scen(3, [None, "str", None]), gtcn_scen(2, [None]), gtcn_scen(2, [None, None], nvols=3), gtcn_scen(1, [None, None])],
+        raises=[("ValueError", "gtcn_rejects(columns, column_names, initial_volumes)")],
+        ensures=[("row-A-keys-and-default-names", "gtcn_ok(result, name, columns, column_names, initial_volumes)", ["C05", "C20"])],
+        native={"imports": ["from robotools.liquidhandling.composition import get_trough_component_names"],
+                "call": "get_trough_component_names(name, columns, column_names, initial_volumes)"},
+    ))
+
+
 _install_c05 = install
 
 
 def install(world):  # noqa: F811
     _install_c05(world)
     install_gic(world)
+    install_gtcn(world)
